@@ -32,6 +32,8 @@ import (
 //	L: GenProto with a custom metasheet name, failing in the first pass (a listed sheet does not exist)
 //	M: like A plus a column Num "int32|{default:"1" range:"0,100"}" with blank cells
 //	N: like B plus the same column with other props ({default:"5" range:"0,1000"}), blank cells and a value 500
+//	O: like F (E2002), with the language option given as the empty string (whatever that means, it means the same
+//	   after any history)
 //	K: GenConf on a hand-written proto file whose messages carry no (tableau.field) options at all (a plain string
 //	   field and a plain cross-cell struct field), same package
 func c16Call(name string, w *workspace) string {
@@ -103,6 +105,9 @@ func c16Call(name string, w *workspace) string {
 		}
 	case "F":
 		badRef = true
+	case "O":
+		badRef = true
+		lang = ""
 	case "G":
 		kind = [][]string{{"Name", "Alias"}, {"KIND_P", "Beta"}, {"KIND_Q", "Alpha"}}
 		ids = []string{"5", "6"}
@@ -201,7 +206,7 @@ func init() {
 	// e2e.C16.history: every history of ≤ 3 calls from the pool; the LAST call's outcome (files written, error)
 	// in a process that ran the whole history vs. in a fresh process.
 	regStream("e2e.C16.history", func(r *rand.Rand, n int, emit func(string, ...string)) {
-		pool := []string{"A", "B", "C", "D", "E", "F", "G", "H", "I", "J", "K", "L", "M", "N"}
+		pool := []string{"A", "B", "C", "D", "E", "F", "G", "H", "I", "J", "K", "L", "M", "N", "O"}
 		count := 0
 		for _, a := range pool {
 			for _, b := range pool {
